@@ -217,6 +217,10 @@ async fn run_async(case: &Value, client: UnixStream) -> (Vec<Value>, Vec<i32>, S
             "with_search_options" => { ldap.with_search_options(ldap3::SearchOptions::new().deref(ldap3::DerefAliases::Finding).typesonly(true).timelimit(9).sizelimit(70)); json!("ok") }
             "with_controls" => { ldap.with_controls(raw_ctrls(&st["ctrls"])); json!("ok") }
             "simple_bind" => match guard(ldap.simple_bind(&s(&st["dn"]), &s(&st["pw"]))).await { Some(r) => res_json(r, result_json), None => json!("hang") },
+            "delete_given_up" => {
+                // the caller stops waiting from outside (outer timeout on the SAME handle): the future is dropped, no scrub is sent
+                match tokio::time::timeout(Duration::from_millis(st["ms"].as_u64().unwrap_or(50)), ldap.delete(&s(&st["dn"]))).await { Ok(r) => res_json(r, result_json), Err(_) => json!("given-up") }
+            }
             "delete" => match guard(ldap.delete(&s(&st["dn"]))).await { Some(r) => res_json(r, result_json), None => json!("hang") },
             "compare" => match guard(ldap.compare(&s(&st["dn"]), "a", "v")).await { Some(r) => res_json(r, |c| result_json(&c.0)), None => json!("hang") },
             "whoami" => match guard(ldap.extended(ldap3::exop::WhoAmI)).await { Some(r) => res_json(r, |x| json!({"result": result_json(&x.1), "name": x.0.name, "val": x.0.val})), None => json!("hang") },
